@@ -256,3 +256,6 @@ KNOWN_PREDICATES = {}
 
 def valid_case(case):
     return bool(case.get("program", {}).get("features"))
+
+
+RULE = RULE + " " + ('Testcase statuses are compared with the Scenario objects that ran and with the status class the reference model derives from the generated outcomes and faults; hooks may read element statuses.')
